@@ -956,7 +956,11 @@ func (fc *fileCtx) l2Stmt(s ast.Stmt) {
 		}
 		fc.l2Block(s.Body)
 	case *ast.RangeStmt:
+		rangeMap := fc.isMap(s.X)
 		s.X = fc.l2Expr(s.X, false)
+		if rangeMap {
+			s.X = fc.wrapMap(s.X, s.For, false)
+		}
 		if s.Tok == token.ASSIGN {
 			if s.Key != nil {
 				s.Key = fc.l2Expr(s.Key, true)
@@ -1112,8 +1116,14 @@ func (fc *fileCtx) l2Expr(e ast.Expr, write bool) ast.Expr {
 		if fc.isTypeExpr(e.Index) {
 			return e // generic instantiation
 		}
+		isMap := fc.isMap(e.X)
+		pos := e.Lbrack
 		e.X = fc.l2Expr(e.X, false)
 		e.Index = fc.l2Expr(e.Index, false)
+		if isMap {
+			// an element access is an access to the map itself
+			e.X = fc.wrapMap(e.X, pos, write)
+		}
 		return e
 	case *ast.SliceExpr:
 		e.X = fc.l2Expr(e.X, false)
@@ -1193,10 +1203,14 @@ func (fc *fileCtx) l2Expr(e ast.Expr, write bool) ast.Expr {
 		}
 		if id, ok := e.Fun.(*ast.Ident); ok {
 			if _, isB := fc.info.Uses[id].(*types.Builtin); isB {
+				delMap := id.Name == "delete" && len(e.Args) == 2 && fc.isMap(e.Args[0])
 				for i := range e.Args {
 					if !fc.isTypeExpr(e.Args[i]) {
 						e.Args[i] = fc.l2Expr(e.Args[i], false)
 					}
+				}
+				if delMap {
+					e.Args[0] = fc.wrapMap(e.Args[0], e.Lparen, true)
 				}
 				return e
 			}
@@ -1208,6 +1222,30 @@ func (fc *fileCtx) l2Expr(e ast.Expr, write bool) ast.Expr {
 		return e
 	}
 	return e
+}
+
+func (fc *fileCtx) isMap(e ast.Expr) bool {
+	tv, ok := fc.info.Types[e]
+	if !ok || tv.Type == nil {
+		return false
+	}
+	_, m := tv.Type.Underlying().(*types.Map)
+	return m
+}
+
+func (fc *fileCtx) wrapMap(m ast.Expr, pos token.Pos, write bool) ast.Expr {
+	kind := "maprd"
+	if write {
+		kind = "mapwr"
+	}
+	st.sites[kind]++
+	p := fc.fset.Position(pos)
+	site := &ast.BasicLit{Kind: token.STRING, Value: strconv.Quote(fmt.Sprintf("%s:%d:%s@%s", filepath.Base(p.Filename), p.Line, kind, fc.fn))}
+	w := "false"
+	if write {
+		w = "true"
+	}
+	return fc.rt("MP", m, site, ast.NewIdent(w))
 }
 
 func isWaitGroup(t types.Type) bool {
